@@ -324,16 +324,13 @@ impl Op {
 
 #[derive(Clone, Copy, Debug, PartialEq, Eq, Serialize, Deserialize)]
 pub struct Switches {
-    /// do not call dict.remove with a key that is not a string (open finding: it has no effect)
-    pub avoid_dict_remove_nonstr: bool,
-    /// do not compare a library-made None with a source-written `Maybe.None` using `==`
-    pub avoid_none_eq_source: bool,
-    /// keep dict/set key universes free of distinct keys with the same printed text
+    /// keep dict/set key universes free of distinct keys with the same printed text (open findings
+    /// C18/dict|set/distinct-keys-with-same-text-collide)
     pub avoid_key_collision: bool,
 }
 impl Switches {
     pub fn all_on() -> Switches {
-        Switches { avoid_dict_remove_nonstr: true, avoid_none_eq_source: true, avoid_key_collision: true }
+        Switches { avoid_key_collision: true }
     }
 }
 
